@@ -1,41 +1,43 @@
 (* Property C20: too few standards are reported; every determining set of standards solves.
    Theorems only.  They are about coq/SolveCount/CountModel.v, the executable model of the counting,
    dispatch and re-entrancy logic of vnacal_new_add_* / vnacal_new_solve, which checks/C20.py ties to
-   the library on every run (white-box comparison of equation lists, counters, decisions and the
-   calibration swap on generated add/solve histories).
+   the library on every run (white-box comparison of equation lists, counters, dispatch, decisions, the
+   calibration swap, the write-back of the unknown parameters and the injected allocation failures on
+   generated add/solve histories).
 
    The numeric part of a solve is an uninterpreted oracle `o`; every theorem holds for all oracles.
-   NOT proved here: determining_set_solves ("full column rank of the exact system => success and exact
-   correction").  It is decided per case, on every run, by the exact-rank oracle of lib/solvecount.py
-   against the real library (support, not proof); the linear-algebra half is C01 / C19. *)
+   A theorem whose name ends in `_by_construction` restates a branch of the model's definition: its
+   content is the tie, not the proof.
+
+   NOT proved here (see docs/design_C20.md "Not proved / tested only"):
+   - determining_set_solves ("full column rank of the exact system => the numeric verdict is positive and
+     the correction is exact"): decided per case, on every run, by the exact-rank oracle of
+     lib/solvecount.py against the real library (support, not proof);
+   - anything about the TRL path beyond its dispatch condition (it performs no count test);
+   - order-independence of the number of registered unknown parameters and of the numeric verdict
+     (the oracle sees the standards in the order they were added). *)
 Require Import List Arith Permutation.
 Import ListNotations.
 Require Import LV.SolveCount.CountModel LV.SolveCount.CountProofs.
 
+(* 0. For every configuration vnacal_new_alloc accepts, every system has the unity term: the number of
+      unknowns per system, t_terms - 1, is not a truncated subtraction. *)
+Theorem layout_unity_term (ty : ctype) (r c : nat) :
+  alloc_ok ty r c = true -> t_terms ty r c = S (unknowns ty r c).
+Proof. exact (t_terms_unity ty r c). Qed.
+Print Assumptions layout_unity_term.
+
 (* 1. Known standards, any type / dimensions / list of add calls (accepted or not), a frequency vector
       with at least one point: if some linear system has fewer equations than unknowns, solve reports
-      EDOM and the object - measurements, equations, counters, previous calibration - is unchanged. *)
+      EDOM and the object - measurements, equations, counters, previous calibration, parameter values -
+      is unchanged.  (The premise 0 < F is needed: see zero_frequencies_solve_succeeds_as_coded.) *)
 Theorem underdetermined_edom (o : oracle) (cf : config) (F : nat) (stds : list add_args) (k : nat) :
   let st := run_adds (init cf F true) stds in
   0 < F -> st_unknown st = 0 -> k < systems (cf_ty cf) (cf_c cf) ->
   sys_count st k < unknowns (cf_ty cf) (cf_r cf) (cf_c cf) ->
-  solve o st = (st, Err EDOM).
+  solve o NoFault st = (st, Err EDOM).
 Proof. exact (underdetermined_edom_l o cf F stds k). Qed.
 Print Assumptions underdetermined_edom.
-
-(* ... and for an arbitrary state (unknown parameters included) whenever the count test that the
-   dispatched solver performs is not met: per system on the simple path, in total
-   (equations + correlated < error terms + unknown parameters) on the iterative path. *)
-Theorem count_deficient_edom (o : oracle) (st : state) :
-  st_fvalid st = true -> 0 < st_freqs st -> count_deficient st = true -> solve o st = (st, Err EDOM).
-Proof. exact (deficient_edom o st). Qed.
-Print Assumptions count_deficient_edom.
-
-Theorem unknown_parameters_total_deficient (st : state) :
-  solve_path st = PAuto -> st_equations st + st_corr st < x_length st + st_unknown st ->
-  count_deficient st = true.
-Proof. exact (auto_total_deficient st). Qed.
-Print Assumptions unknown_parameters_total_deficient.
 
 (* the hypotheses are met: 1x1 T8 with short and open only (2 equations, 3 unknowns);
    2x2 UE14 where only port 1 was calibrated (system 2 has no equation) *)
@@ -44,18 +46,134 @@ Definition cf_ue14_22 := {| cf_ty := UE14; cf_r := 2; cf_c := 2; cf_kinds := [] 
 
 Example underdetermined_edom_satisfiable :
   let st := run_adds (init cf_t8_11 1 true) [single_reflect 1 1 2 1; single_reflect 1 1 1 1] in
-  st_unknown st = 0 /\ sys_count st 0 = 2 /\ unknowns T8 1 1 = 3.
-Proof. vm_compute. auto. Qed.
-
-Example underdetermined_second_system :
-  let st := run_adds (init cf_ue14_22 1 true)
-              [single_reflect 2 2 2 1; single_reflect 2 2 1 1; single_reflect 2 2 0 1; single_reflect 2 2 3 1;
-               single_reflect 2 2 4 1] in
-  st_unknown st = 0 /\ sys_count st 0 = 5 /\ sys_count st 1 = 0 /\ unknowns UE14 2 2 = 5 /\
-  forall o, solve o st = (st, Err EDOM).
+  alloc_ok T8 1 1 = true /\ st_unknown st = 0 /\ sys_count st 0 = 2 /\ unknowns T8 1 1 = 3 /\
+  forall o, solve o NoFault st = (st, Err EDOM).
 Proof.
   split; [reflexivity |]. split; [reflexivity |]. split; [reflexivity |]. split; [reflexivity |].
-  intros o. apply count_deficient_edom; [reflexivity | apply Nat.lt_0_1 | reflexivity].
+  intros o. apply (underdetermined_edom o cf_t8_11 1 [single_reflect 1 1 2 1; single_reflect 1 1 1 1] 0).
+  - apply Nat.lt_0_1.
+  - reflexivity.
+  - apply Nat.lt_0_1.
+  - vm_compute. apply le_n.
+Qed.
+
+Example underdetermined_second_system :
+  let stds := [single_reflect 2 2 2 1; single_reflect 2 2 1 1; single_reflect 2 2 0 1; single_reflect 2 2 3 1;
+               single_reflect 2 2 4 1] in
+  let st := run_adds (init cf_ue14_22 1 true) stds in
+  alloc_ok UE14 2 2 = true /\
+  st_unknown st = 0 /\ sys_count st 0 = 5 /\ sys_count st 1 = 0 /\ unknowns UE14 2 2 = 5 /\
+  forall o, solve o NoFault st = (st, Err EDOM).
+Proof.
+  split; [reflexivity |]. split; [reflexivity |]. split; [reflexivity |]. split; [reflexivity |].
+  split; [reflexivity |].
+  intros o. apply (underdetermined_edom o cf_ue14_22 1 _ 1).
+  - apply Nat.lt_0_1.
+  - reflexivity.
+  - vm_compute. apply le_n.
+  - vm_compute. apply le_n_S, Nat.le_0_l.
+Qed.
+
+(* 1b. Unknown standard parameters (the iterative solver), same quantifiers: if the equations of all
+       systems plus the correlated parameters are fewer than the error terms plus the unknown
+       parameters, solve reports EDOM and the object is unchanged.  `is_trl st = false`: the history
+       does not have the exact TRL shape (trl_path_only_for_exact_shape), whose solver has no count test. *)
+Theorem underdetermined_edom_unknown_parameters (o : oracle) (cf : config) (F : nat) (stds : list add_args) :
+  let st := run_adds (init cf F true) stds in
+  0 < F -> st_unknown st <> 0 -> is_trl st = false ->
+  st_equations st + st_corr st <
+    systems (cf_ty cf) (cf_c cf) * unknowns (cf_ty cf) (cf_r cf) (cf_c cf) + st_unknown st ->
+  solve o NoFault st = (st, Err EDOM).
+Proof. exact (underdetermined_auto_edom_l o cf F stds). Qed.
+Print Assumptions underdetermined_edom_unknown_parameters.
+
+(* the hypotheses are met (iterative path): 1x1 T8, slot 3 an unknown parameter, short + open + the
+   unknown reflect: 3 equations < 3 error terms + 1 unknown parameter *)
+Definition cf_t8_11_unk := {| cf_ty := T8; cf_r := 1; cf_c := 1; cf_kinds := [(3, PUnknown)] |}.
+
+Example underdetermined_edom_unknown_parameters_satisfiable :
+  let stds := [single_reflect 1 1 2 1; single_reflect 1 1 1 1; single_reflect 1 1 3 1] in
+  let st := run_adds (init cf_t8_11_unk 1 true) stds in
+  alloc_ok T8 1 1 = true /\ solve_path st = PAuto /\ st_unknown st = 1 /\ st_equations st = 3 /\
+  unknown_list st = [3] /\
+  forall o, solve o NoFault st = (st, Err EDOM).
+Proof.
+  split; [reflexivity |]. split; [reflexivity |]. split; [reflexivity |]. split; [reflexivity |].
+  split; [reflexivity |].
+  intros o. apply (underdetermined_edom_unknown_parameters o cf_t8_11_unk 1).
+  - apply Nat.lt_0_1.
+  - vm_compute. discriminate.
+  - reflexivity.
+  - vm_compute. apply le_n.
+Qed.
+
+(* ... and with a correlated parameter: each correlated parameter is one more unknown and contributes one
+   correlation equation (credited once).  Slot 5 is correlated with slot 3; short + the reflects 3, 4, 5:
+   4 equations + 1 correlation equation < 3 error terms + 3 unknown parameters - exactly one short. *)
+Definition cf_t8_11_cor :=
+  {| cf_ty := T8; cf_r := 1; cf_c := 1; cf_kinds := [(3, PUnknown); (4, PUnknown); (5, PCorrelated 3)] |}.
+
+Example underdetermined_edom_correlated_one_short :
+  let stds := [single_reflect 1 1 2 1; single_reflect 1 1 3 1; single_reflect 1 1 4 1; single_reflect 1 1 5 1] in
+  let st := run_adds (init cf_t8_11_cor 1 true) stds in
+  solve_path st = PAuto /\ st_unknown st = 3 /\ st_corr st = 1 /\ st_equations st = 4 /\
+  st_equations st + st_corr st + 1 = x_length st + st_unknown st /\ unknown_list st = [3; 4; 5] /\
+  (forall o, solve o NoFault st = (st, Err EDOM)) /\
+  (* one more known standard: the count test passes *)
+  count_deficient (run_adds st [single_reflect 1 1 1 1]) = false.
+Proof.
+  split; [reflexivity |]. split; [reflexivity |]. split; [reflexivity |]. split; [reflexivity |].
+  split; [reflexivity |]. split; [reflexivity |]. split; [| reflexivity].
+  intros o. apply (underdetermined_edom_unknown_parameters o cf_t8_11_cor 1).
+  - apply Nat.lt_0_1.
+  - vm_compute. discriminate.
+  - reflexivity.
+  - vm_compute. apply le_n.
+Qed.
+
+(* 1c. The same for an arbitrary state, by the definition of `solve` (count_deficient is the test the
+       dispatched solver performs; the model's EDOM branch is that test).  Content: the tie. *)
+Theorem count_deficient_edom_by_construction (o : oracle) (st : state) :
+  st_fvalid st = true -> 0 < st_freqs st -> count_deficient st = true ->
+  solve o NoFault st = (st, Err EDOM).
+Proof. exact (deficient_edom o st). Qed.
+Print Assumptions count_deficient_edom_by_construction.
+
+(* 1d. The analytic TRL solver (no count test) is dispatched only for the exact shape: 2x2 T8 / U8 /
+       TE10 / UE10, exactly three standards, exactly two unknown parameters, no correlated parameter,
+       no measurement-error model. *)
+Theorem trl_path_only_for_exact_shape (st : state) :
+  solve_path st = PTrl ->
+  cf_r (st_cf st) = 2 /\ cf_c (st_cf st) = 2 /\ is_8_10 (cf_ty (st_cf st)) = true /\ length (st_meas st) = 3 /\
+  st_unknown st = 2 /\ st_corr st = 0 /\ st_merr st = false.
+Proof. exact (trl_shape st). Qed.
+Print Assumptions trl_path_only_for_exact_shape.
+
+Definition cf_t8_22_trl := {| cf_ty := T8; cf_r := 2; cf_c := 2; cf_kinds := [(3, PUnknown); (4, PUnknown)] |}.
+
+(* through, reflect (unknown 3 on both ports), line (unknown 4): the TRL path; with the reflect given
+   as a single reflect (cells of the 2x2 S matrix unset, D69) it is not *)
+Example trl_path_satisfiable :
+  solve_path (run_adds (init cf_t8_22_trl 1 true)
+                [through 2 2 1 2; line 2 2 3 0 0 3 1 2; line 2 2 0 4 4 0 1 2]) = PTrl /\
+  solve_path (run_adds (init cf_t8_22_trl 1 true)
+                [through 2 2 1 2; single_reflect 2 2 3 2; line 2 2 0 4 4 0 1 2]) = PAuto.
+Proof. split; reflexivity. Qed.
+
+(* 1e. As coded: with a frequency vector of length 0 the loop over the frequencies does not run, no
+       count test is made and the solve succeeds whatever was added (a calibration with no
+       frequencies).  This is why 1, 1b, 1c need 0 < F. *)
+Theorem zero_frequencies_solve_succeeds_as_coded (o : oracle) (st : state) :
+  st_fvalid st = true -> st_freqs st = 0 -> solve o NoFault st = (solved st, Ok).
+Proof. exact (zero_frequencies_ok_l o st). Qed.
+Print Assumptions zero_frequencies_solve_succeeds_as_coded.
+
+Example zero_frequencies_satisfiable :
+  count_deficient (init cf_t8_11 0 true) = true /\
+  forall o, snd (solve o NoFault (init cf_t8_11 0 true)) = Ok.
+Proof.
+  split; [reflexivity |]. intros o.
+  rewrite (zero_frequencies_solve_succeeds_as_coded o (init cf_t8_11 0 true)); reflexivity.
 Qed.
 
 (* 2. Adding a standard (accepted or rejected) never decreases any system's equation count, the total
@@ -67,62 +185,180 @@ Theorem count_monotone (st : state) (a : add_args) (k : nat) :
 Proof. exact (add_monotone st a k). Qed.
 Print Assumptions count_monotone.
 
-(* 3. Re-entrancy.  A solve that fails returns the state it was given ... *)
-Theorem failed_solve_unchanged (o : oracle) (st : state) (e : errno) :
-  snd (solve o st) = Err e -> solve o st = (st, Err e).
-Proof. exact (failed_solve_unchanged_l o st e). Qed.
+(* 3. Re-entrancy.  The model's solve follows the order of effects of _vnacal_new_solve_internal:
+      frequency-vector test; locals (solve state, new calibration, TRL indices); frequency loop (every
+      failure = EDOM through "out:"); write-back of the solved unknown parameters into the vnacal_t (a
+      calloc per parameter whose frequency count differs, which can fail); only then the swap of the
+      calibration.  `af` is an injected allocation failure.
+
+   3a. A solve that fails - for want of a frequency vector, by the count test, numerically, or by an
+       allocation failure before the write-back - returns the state it was given: measurements,
+       equations, counters, previous calibration and every parameter value. *)
+Theorem failed_solve_unchanged (o : oracle) (af : afault) (st : state) :
+  wb_fault af = false -> snd (solve o af st) <> Ok -> fst (solve o af st) = st.
+Proof. exact (solve_fail_unchanged o af st). Qed.
 Print Assumptions failed_solve_unchanged.
 
-(* ... a successful one replaces the calibration and nothing else ... *)
-Theorem successful_solve_swaps_calibration (o : oracle) (st : state) :
-  snd (solve o st) = Ok -> fst (solve o st) = set_cal st (Some (st_meas st)).
-Proof. exact (solve_ok_swaps o st). Qed.
-Print Assumptions successful_solve_swaps_calibration.
+(* 3b. Without the premise this is false of the code (and of the model): when the calloc of the second
+       unknown parameter's frequency vector fails, the first parameter already holds the new solution
+       and the second has lost its vectors, although the solve reports failure (ENOMEM). *)
+Definition cf_t8_11_unk2 := {| cf_ty := T8; cf_r := 1; cf_c := 1; cf_kinds := [(3, PUnknown); (4, PUnknown)] |}.
+Definition st_two_unknowns :=
+  run_adds (init cf_t8_11_unk2 1 true)
+    [single_reflect 1 1 2 1; single_reflect 1 1 1 1; single_reflect 1 1 0 1; single_reflect 1 1 3 1;
+     single_reflect 1 1 4 1].
 
-(* ... the verdict of a solve does not depend on the calibration left by earlier solves ... *)
-Theorem solve_independent_of_previous_calibration (o : oracle) (st : state) (c : option (list meas)) :
-  snd (solve o (set_cal st c)) = snd (solve o st).
-Proof. exact (solve_ignores_cal o st c). Qed.
-Print Assumptions solve_independent_of_previous_calibration.
+Theorem failed_solve_unchanged_refuted_for_writeback_fault :
+  exists (o : oracle) (af : afault) (st : state),
+    snd (solve o af st) = Err ENOMEM /\ fst (solve o af st) <> st /\
+    pv_get (st_pv (fst (solve o af st))) 3 = {| pv_freqs := 1; pv_gamma := Some (st_meas st) |} /\
+    pv_get (st_pv st) 3 = pv_init.
+Proof.
+  exists (fun _ _ _ => true), (FaultWriteback 1), st_two_unknowns.
+  split; [reflexivity |]. split; [| split; reflexivity].
+  intros E. apply (f_equal st_pv) in E. vm_compute in E. discriminate.
+Qed.
+Print Assumptions failed_solve_unchanged_refuted_for_writeback_fault.
 
-(* ... hence: any history (adds, solves, set_m_error, add_calibration) in which every solve failed,
-   followed by more operations and a solve, ends in the same state and reports the same outcomes as the
-   history with the failed attempts removed - in particular as a fresh object (st = init ...) that was
-   given the same standards. *)
-Theorem retry_after_failure (o : oracle) (st : state) (ops more : list op) :
-  all_solves_fail o st ops ->
-  run o (fst (run o st ops)) (more ++ [OpSolve]) =
-  run o (fst (run o st (remove_solves ops))) (more ++ [OpSolve]).
-Proof. exact (retry o st ops more). Qed.
-Print Assumptions retry_after_failure.
+(* 3c. What EVERY failing solve keeps, that one included: the standards, equations and counters, the
+       previous calibration, and the value of every parameter that is not an unknown of this
+       calibration. *)
+Theorem failed_solve_keeps_standards_and_calibration (o : oracle) (af : afault) (st : state) :
+  snd (solve o af st) <> Ok ->
+  same_but_pv (fst (solve o af st)) st /\
+  forall k, ~ In k (unknown_list st) -> pv_get (st_pv (fst (solve o af st))) k = pv_get (st_pv st) k.
+Proof. exact (solve_fail_keeps o af st). Qed.
+Print Assumptions failed_solve_keeps_standards_and_calibration.
 
-Example retry_after_failure_satisfiable :
-  forall o, all_solves_fail o (init cf_t8_11 1 true)
-    [OpSolve; OpAdd (single_reflect 1 1 2 1); OpSolve; OpSolve; OpAdd (single_reflect 1 1 1 1); OpSolve].
-Proof. intros o. apply solves_deficient_fail. vm_compute. reflexivity. Qed.
+(* 3d. A successful solve replaces the calibration, leaves every unknown parameter of this calibration
+       with the new solution on the calibration's frequency grid, and changes nothing else (no other
+       parameter, no standard, no counter). *)
+Theorem successful_solve_state (o : oracle) (af : afault) (st : state) :
+  snd (solve o af st) = Ok ->
+  let st' := fst (solve o af st) in
+  same_but_results st' st /\ st_cal st' = Some (st_meas st) /\
+  (forall k, In k (unknown_list st) ->
+        pv_get (st_pv st') k = {| pv_freqs := st_freqs st; pv_gamma := Some (st_meas st) |}) /\
+  (forall k, ~ In k (unknown_list st) -> pv_get (st_pv st') k = pv_get (st_pv st) k).
+Proof. exact (solve_ok_state o af st). Qed.
+Print Assumptions successful_solve_state.
 
-(* after the two failures of the example, the third reflect makes the solve succeed exactly when
-   the numeric oracle does, and the calibration appears *)
-Example retry_then_success :
+Example successful_solve_state_satisfiable :
   let o : oracle := fun _ _ _ => true in
-  let r := run o (init cf_t8_11 1 true)
-    [OpAdd (single_reflect 1 1 2 1); OpSolve; OpAdd (single_reflect 1 1 1 1); OpSolve;
-     OpAdd (single_reflect 1 1 0 1); OpSolve] in
-  snd r = [Ok; Err EDOM; Ok; Err EDOM; Ok; Ok] /\ st_cal (fst r) = Some (st_meas (fst r)).
+  snd (solve o NoFault st_two_unknowns) = Ok /\ unknown_list st_two_unknowns = [3; 4] /\
+  st_unknown st_two_unknowns = 2 /\ solve_path st_two_unknowns = PAuto.
 Proof. vm_compute. auto. Qed.
 
-(* a failure after a success keeps the earlier calibration (here: the numeric oracle fails once a
-   fourth standard is present) *)
+(* the list walked by the write-back has as many entries as the counter vn_unknown_parameters, along
+   every history from a new object (slot 0, VNACAL_ZERO, is a known parameter) *)
+Theorem unknown_counter_is_list_length (o : oracle) (cf : config) (F : nat) (v : bool) (ops : list op) :
+  kind_of (cf_kinds cf) 0 = PKnown ->
+  let st := fst (run o (init cf F v) ops) in length (unknown_list st) = st_unknown st.
+Proof. exact (unknown_counter_is_list_length_l o cf F v ops). Qed.
+Print Assumptions unknown_counter_is_list_length.
+
+(* 3e. The exact condition under which a solve (no allocation failure) succeeds: a frequency vector,
+       and - unless it is empty - the count test of the dispatched solver passes and the numeric verdict
+       is positive at every frequency. *)
+Theorem solve_succeeds_iff (o : oracle) (st : state) :
+  snd (solve o NoFault st) = Ok <->
+  st_fvalid st = true /\
+  (st_freqs st = 0 \/ (count_deficient st = false /\ forall f, f < st_freqs st -> numeric_ok o st f = true)).
+Proof. exact (solve_ok_iff o st). Qed.
+Print Assumptions solve_succeeds_iff.
+
+(* 3f. The verdict does not depend on what earlier solves left behind (calibration, parameter values):
+       by construction of the model - `solve` reads neither field for its verdict (the C solve state is
+       a local rebuilt by vs_init on every call).  Content: the tie. *)
+Theorem solve_verdict_ignores_previous_results_by_construction (o : oracle) (a b : state) :
+  same_but_results a b -> (snd (solve o NoFault a) = Ok <-> snd (solve o NoFault b) = Ok).
+Proof. exact (solve_verdict_same o a b). Qed.
+Print Assumptions solve_verdict_ignores_previous_results_by_construction.
+
+(* 4. Retry.  For every oracle, every state and every history `ops` (adds, solves with or without
+      allocation failures outside the write-back, set_m_error, add_calibration) in which every solve
+      failed: let st' be the state reached by the same history WITHOUT the failed attempts (in
+      particular: a fresh object given the same standards).  If st' has a frequency vector, the count
+      test of its dispatched solver passes and the numeric verdict is positive at every frequency, then
+      one more solve succeeds and leaves exactly `solved st'` - the failed attempts are invisible. *)
+Theorem retry_after_failure (o : oracle) (st : state) (ops : list op) :
+  all_solves_fail o st ops ->
+  let st' := fst (run o st (remove_solves ops)) in
+  st_fvalid st' = true -> count_deficient st' = false ->
+  (forall f, f < st_freqs st' -> numeric_ok o st' f = true) ->
+  run o st (ops ++ [OpSolve NoFault]) = (solved st', snd (run o st ops) ++ [Ok]).
+Proof. exact (retry_succeeds o st ops). Qed.
+Print Assumptions retry_after_failure.
+
+(* ... and while the count test is still not met it keeps reporting EDOM, state unchanged *)
+Theorem retry_still_too_few_standards (o : oracle) (st : state) (ops : list op) :
+  all_solves_fail o st ops ->
+  let st' := fst (run o st (remove_solves ops)) in
+  st_fvalid st' = true -> 0 < st_freqs st' -> count_deficient st' = true ->
+  run o st (ops ++ [OpSolve NoFault]) = (st', snd (run o st ops) ++ [Err EDOM]).
+Proof. exact (retry_still_deficient o st ops). Qed.
+Print Assumptions retry_still_too_few_standards.
+
+(* 4b. The documented flow: the solve fails because there are too few standards; standards are added
+       until the count test passes; if the numeric verdict is then positive the solve succeeds, and the
+       object is the one a user who never made the failed attempt would have. *)
+Theorem add_standards_until_determined (o : oracle) (st : state) (more : list add_args) :
+  st_fvalid st = true -> 0 < st_freqs st -> count_deficient st = true ->
+  let st1 := fst (solve o NoFault st) in
+  let st2 := run_adds st1 more in
+  count_deficient st2 = false -> (forall f, f < st_freqs st2 -> numeric_ok o st2 f = true) ->
+  solve o NoFault st = (st, Err EDOM) /\ st2 = run_adds st more /\ solve o NoFault st2 = (solved st2, Ok).
+Proof. exact (add_until_determined o st more). Qed.
+Print Assumptions add_standards_until_determined.
+
+(* non-vacuity: an oracle that is NOT constant (numerically singular as long as fewer than three
+   standards are present, and at a fourth), a history with four failed attempts - two by the count
+   test, one without... *)
+Definition o_three : oracle := fun v _ _ => Nat.eqb (length (snd v)) 3.
+Definition retry_ops : list op :=
+  [OpSolve NoFault; OpAdd (single_reflect 1 1 2 1); OpSolve NoFault; OpSolve FaultEarly;
+   OpAdd (single_reflect 1 1 1 1); OpSolve NoFault; OpAdd (single_reflect 1 1 0 1)].
+
+Example retry_after_failure_satisfiable :
+  all_solves_fail o_three (init cf_t8_11 2 true) retry_ops /\
+  (let st' := fst (run o_three (init cf_t8_11 2 true) (remove_solves retry_ops)) in
+   st_fvalid st' = true /\ count_deficient st' = false /\
+   (forall f, f < st_freqs st' -> numeric_ok o_three st' f = true) /\
+   st' = run_adds (init cf_t8_11 2 true) [single_reflect 1 1 2 1; single_reflect 1 1 1 1; single_reflect 1 1 0 1]) /\
+  snd (run o_three (init cf_t8_11 2 true) (retry_ops ++ [OpSolve NoFault])) =
+    [Err EDOM; Ok; Err EDOM; Err ENOMEM; Ok; Err EDOM; Ok; Ok].
+Proof.
+  split; [apply solves_deficient_fail; reflexivity |].
+  split; [| reflexivity].
+  split; [reflexivity |]. split; [reflexivity |]. split; [| reflexivity].
+  intros f Hf. destruct f as [| [| f]]; [reflexivity | reflexivity |].
+  exfalso. vm_compute in Hf. apply le_S_n, le_S_n in Hf. inversion Hf.
+Qed.
+
+Example add_standards_until_determined_satisfiable :
+  let st := run_adds (init cf_t8_11 1 true) [single_reflect 1 1 2 1] in
+  let more := [single_reflect 1 1 1 1; single_reflect 1 1 0 1] in
+  st_fvalid st = true /\ 0 < st_freqs st /\ count_deficient st = true /\
+  count_deficient (run_adds (fst (solve o_three NoFault st)) more) = false /\
+  (forall f, f < 1 -> numeric_ok o_three (run_adds (fst (solve o_three NoFault st)) more) f = true) /\
+  st_cal (fst (solve o_three NoFault (run_adds (fst (solve o_three NoFault st)) more))) <> None.
+Proof.
+  split; [reflexivity |]. split; [apply Nat.lt_0_1 |]. split; [reflexivity |]. split; [reflexivity |].
+  split; [| vm_compute; discriminate].
+  intros f Hf. destruct f; [reflexivity | inversion Hf; match goal with H : S _ <= 0 |- _ => inversion H end].
+Qed.
+
+(* a failure after a success keeps the earlier calibration (o_three fails once a fourth standard is
+   present) *)
 Example failure_keeps_previous_calibration :
-  let o : oracle := fun v _ _ => Nat.leb (length (snd v)) 3 in
-  let r := run o (init cf_t8_11 1 true)
-    [OpAdd (single_reflect 1 1 2 1); OpAdd (single_reflect 1 1 1 1); OpAdd (single_reflect 1 1 0 1); OpSolve;
-     OpAdd (single_reflect 1 1 3 1); OpSolve] in
+  let r := run o_three (init cf_t8_11 1 true)
+    [OpAdd (single_reflect 1 1 2 1); OpAdd (single_reflect 1 1 1 1); OpAdd (single_reflect 1 1 0 1); OpSolve NoFault;
+     OpAdd (single_reflect 1 1 3 1); OpSolve NoFault] in
   snd r = [Ok; Ok; Ok; Ok; Ok; Err EDOM] /\
   option_map (@length meas) (st_cal (fst r)) = Some 3 /\ length (st_meas (fst r)) = 4.
 Proof. vm_compute. auto. Qed.
 
-(* 4. The order in which the standards were added is irrelevant for every counter ... *)
+(* 5. The order in which the standards were added is irrelevant for every counter ... *)
 Theorem order_irrelevant_count (cf : config) (F : nat) (v : bool) (l l' : list add_args) :
   Permutation l l' ->
   let a := run_adds (init cf F v) l in let b := run_adds (init cf F v) l' in
@@ -131,21 +367,31 @@ Theorem order_irrelevant_count (cf : config) (F : nat) (v : bool) (l l' : list a
 Proof. exact (order_irrelevant_init cf F v l l'). Qed.
 Print Assumptions order_irrelevant_count.
 
-(* ... and, for known standards, for the EDOM decision.
-   (partial: with unknown parameters the decision also involves the number of distinct unknown
-   parameters registered; its independence of the order is tied by the correspondence, not proved.) *)
-Theorem order_irrelevant_decision_known (cf : config) (F : nat) (v : bool) (l l' : list add_args) :
+(* ... and, for known standards, for the COUNT TEST (not for the whole verdict: the numeric oracle is
+   given the standards in their order; with unknown parameters the test also involves the number of
+   distinct unknown parameters registered, whose independence of the order is tied, not proved) ... *)
+Theorem order_irrelevant_count_test_known (cf : config) (F : nat) (v : bool) (l l' : list add_args) :
   cf_kinds cf = [] -> Permutation l l' ->
   count_deficient (run_adds (init cf F v) l) = count_deficient (run_adds (init cf F v) l').
-Proof. exact (order_irrelevant_decision_known_l cf F v l l'). Qed.
-Print Assumptions order_irrelevant_decision_known.
+Proof. exact (order_irrelevant_count_test_known_l cf F v l l'). Qed.
+Print Assumptions order_irrelevant_count_test_known.
+
+(* ... hence too few known standards are reported with EDOM in whatever order they were added *)
+Theorem order_irrelevant_edom_known (o : oracle) (cf : config) (F : nat) (l l' : list add_args) :
+  cf_kinds cf = [] -> Permutation l l' -> 0 < F ->
+  count_deficient (run_adds (init cf F true) l) = true ->
+  solve o NoFault (run_adds (init cf F true) l') = (run_adds (init cf F true) l', Err EDOM).
+Proof. exact (order_irrelevant_edom_known_l o cf F l l'). Qed.
+Print Assumptions order_irrelevant_edom_known.
 
 Example order_irrelevant_satisfiable :
-  Permutation [single_reflect 2 2 2 1; through 2 2 1 2; double_reflect 2 2 2 1 1 2]
-              [double_reflect 2 2 2 1 1 2; single_reflect 2 2 2 1; through 2 2 1 2] /\
-  sys_count (run_adds (init {| cf_ty := TE10; cf_r := 2; cf_c := 2; cf_kinds := [] |} 1 true)
-               [single_reflect 2 2 2 1; through 2 2 1 2; double_reflect 2 2 2 1 1 2]) 0 = 7.
+  let cf := {| cf_ty := TE10; cf_r := 2; cf_c := 2; cf_kinds := [] |} in
+  let l := [single_reflect 2 2 2 1; through 2 2 1 2; double_reflect 2 2 2 1 1 2] in
+  let l' := [double_reflect 2 2 2 1 1 2; single_reflect 2 2 2 1; through 2 2 1 2] in
+  Permutation l l' /\ sys_count (run_adds (init cf 1 true) l) 0 = 7 /\
+  count_deficient (run_adds (init cf 1 true) [single_reflect 2 2 2 1; through 2 2 1 2]) = true /\
+  Permutation [single_reflect 2 2 2 1; through 2 2 1 2] [through 2 2 1 2; single_reflect 2 2 2 1].
 Proof.
-  split; [| reflexivity].
+  split; [| split; [reflexivity | split; [reflexivity | apply perm_swap]]].
   apply Permutation_sym. apply (Permutation_cons_app [_; _] []). simpl. apply Permutation_refl.
 Qed.
